@@ -10,6 +10,10 @@ use std::fmt::Debug;
 use std::path::PathBuf;
 
 pub const VERIF_DIR: &str = "/verif";
+/// where evidence, replays and shard scratch files are written (overridable for sensitivity runs on modified trees)
+pub fn out_dir() -> String {
+    std::env::var("VERIF_OUT").unwrap_or_else(|_| VERIF_DIR.to_string())
+}
 
 #[derive(Clone, Copy, Debug, PartialEq, Eq)]
 pub enum Tier {
@@ -288,7 +292,7 @@ impl KnownFindings {
 // replay files
 // ---------------------------------------------------------------------------
 pub fn write_replay(v: &Violation) -> PathBuf {
-    let dir = PathBuf::from(format!("{VERIF_DIR}/replays"));
+    let dir = PathBuf::from(format!("{}/replays", out_dir()));
     let _ = std::fs::create_dir_all(&dir);
     let body = json!({"property": v.property, "part": v.part, "reason": v.reason, "case": v.case});
     let s = serde_json::to_string_pretty(&body).unwrap();
@@ -307,7 +311,7 @@ pub struct EvidenceMeta {
 }
 
 pub fn write_evidence(prop: &str, tier: Tier, seed: u64, wall_s: f64, stats: &Stats, meta: &EvidenceMeta, known_lines: &[String]) {
-    let dir = PathBuf::from(format!("{VERIF_DIR}/evidence"));
+    let dir = PathBuf::from(format!("{}/evidence", out_dir()));
     let _ = std::fs::create_dir_all(&dir);
     // the run as a whole is only "exhaustive" if it had no random part at all; sub-spaces are listed separately
     let all_exh_only = false;
